@@ -664,9 +664,10 @@ func (fc *FnCtx) assignedIn(nodes ...ast.Node) []modTarget {
 												}
 											}
 										} else {
-											add(o, f)
 											if _, isP := o.Type().Underlying().(*types.Pointer); isP && f == "" {
-												add(o, "*")
+												add(o, "*") // the pointee changes, the pointer variable does not
+											} else {
+												add(o, f)
 											}
 										}
 									}
@@ -1127,19 +1128,21 @@ func (e *Engine) contractForFunc(fn *types.Func) *Contract {
 }
 
 // applyUses instantiates lemma uses / ghost asserts registered for a program point.
-func (fc *FnCtx) applyUses(st *State, where string) {
+func (fc *FnCtx) applyUses(st *State, where string) { fc.applyUsesScope(st, where, nil) }
+
+func (fc *FnCtx) applyUsesScope(st *State, where string, extra map[string]Value) {
 	if fc.c == nil {
 		return
 	}
 	for _, l := range fc.c.Lets {
 		if l.Where == where {
-			sc := fc.specCtx(st, nil)
+			sc := fc.specCtx(st, extra)
 			st.ghost["let:"+l.Text] = sc.eval(l.Expr)
 		}
 	}
 	for _, a := range fc.c.Asserts {
 		if a.Where == where && fc.e.applies(&Clause{Props: a.Props}) {
-			sc := fc.specCtx(st, nil)
+			sc := fc.specCtx(st, extra)
 			sc.pol = 1
 			t := sc.evalBool(a.Expr)
 			fc.oblige(st, "assert", t, token.NoPos, a.Text+" @"+where)
@@ -1148,12 +1151,12 @@ func (fc *FnCtx) applyUses(st *State, where string) {
 	}
 	for _, u := range fc.c.Uses {
 		if u.Where == where && fc.e.applies(&Clause{Props: u.Props}) {
-			fc.useLemma(st, u)
+			fc.useLemma(st, u, extra)
 		}
 	}
 }
 
-func (fc *FnCtx) useLemma(st *State, u *UseSpec) {
+func (fc *FnCtx) useLemma(st *State, u *UseSpec, extra map[string]Value) {
 	call, ok := u.Expr.(*ast.CallExpr)
 	if !ok {
 		panic(unsupported("use clause must be a lemma call: %s", u.Text))
@@ -1166,10 +1169,25 @@ func (fc *FnCtx) useLemma(st *State, u *UseSpec) {
 	if len(call.Args) != len(lm.Params) {
 		panic(unsupported("lemma %s: wrong number of arguments", name))
 	}
-	sc := fc.specCtx(st, nil)
+	sc := fc.specCtx(st, extra)
 	scope := map[string]Value{}
-	for i, p := range lm.Params {
-		scope[p] = sc.eval(call.Args[i])
+	skip := false
+	func() {
+		defer func() {
+			if r := recover(); r != nil {
+				if u, ok := r.(unsupportedErr); ok && strings.Contains(u.msg, "unknown identifier") {
+					skip = true // a variable of the instantiation is not in scope on this path: the lemma is not needed here
+					return
+				}
+				panic(r)
+			}
+		}()
+		for i, p := range lm.Params {
+			scope[p] = sc.eval(call.Args[i])
+		}
+	}()
+	if skip {
+		return
 	}
 	lc := &evalCtx{fc: fc, st: st, spec: true, scope: scope, pkg: fc.e.pkgs[lm.Pkg], noLocals: true}
 	var hyp *Term = True
